@@ -118,6 +118,17 @@ static void EmitViolLine(const char * cls, const char * detail, uint64_t hash, i
    (void) !write(g_resultFd, buf, (size_t) n);
    _exit(exitCode);
 }
+void ExitWithViolation(const std::string & cls, const std::string & detail, uint64_t hash)
+{
+   if (g_mode == 3)
+   {
+      std::string line = "VIOL " + U(hash) + " 0 0 " + cls + " " + Esc(detail.substr(0, 3000)) + "\n";
+      (void) !write(g_resultFd, line.data(), line.size());
+      _exit(0);
+   }
+   EmitViolLine(cls.c_str(), detail.c_str(), hash, (g_mode == 2) ? 1 : 3);
+   _exit(3);
+}
 static void OnAlarm(int) {EmitViolLine("hang", g_curOp, 0, (g_mode == 2) ? 1 : 3);}
 static int g_watchdogSecs = 20;
 void WatchdogArm(int seconds) {alarm((unsigned) ((seconds > 0) ? seconds : g_watchdogSecs));}
